@@ -1,14 +1,23 @@
 (* Case type and the two checks evaluated on harness cases for C27. *)
-From FH Require Import Model.Base Gen.GenC27 Model.IPv6 Model.PathNorm Model.Uri Spec.NetUrl.
+From FH Require Import Model.Base Gen.GenC27 Model.IPv6 Model.PathNorm Model.Uri Model.UriOps Spec.NetUrl.
+From FH Require Model.Args.
 Open Scope N_scope.
 
 (* what the getters of a URI return after Parse: ok?, Scheme() Host() Path() QueryString() Hash() *)
 Inductive obs := Obs (ok : bool) (scheme host path qs hash : bytes).
 
+(* every getter of a URI object plus both serialisations *)
+Inductive snap := Snap (scheme host path pathOriginal qs hash user pw full req : bytes).
+
 Inductive c27case :=
+(* Parse(hostArg, uri) into a (fresh or dirty re-used) object, then the operations one by one; a snapshot after Parse and after
+   every operation (none at all when Parse failed); finally Parse(nil, FullURI()) of the last state, and QueryArgs() of both *)
+| CEdit (hostArg uri : bytes) (ops : list uop) (snaps : list snap) (pf : obs) (argsU argsF : list (bytes * bytes))
 | CUri (hostArg uri : bytes)
        (p : obs) (user pw : bytes)      (* u.Parse(hostArg, uri), Username(), Password() *)
        (full req : bytes)               (* u.FullURI(), u.RequestURI()  (QueryArgs() not called yet) *)
+       (stable : bool)                  (* FullURI(), RequestURI(), FullURI(), RequestURI() again gave the same bytes each time *)
+       (reqRaw fullRaw : bytes)         (* RequestURI(), FullURI() with DisablePathNormalizing = true (switched off again afterwards) *)
        (pf : obs)                       (* Parse(nil, full) *)
        (pr : obs)                       (* Parse(u.Host(), req) *)
        (args : list (bytes * bytes))    (* u.QueryArgs() as (key, value) list — from here on parsedQueryArgs = true *)
@@ -36,16 +45,70 @@ Definition obs_path (a : obs) : bytes := match a with Obs _ _ _ p _ _ => p end.
 Definition obs_qs (a : obs) : bytes := match a with Obs _ _ _ _ q _ => q end.
 Definition obs_hash (a : obs) : bytes := match a with Obs _ _ _ _ _ f => f end.
 
+Definition args_eqb := list_eqb (pair_eqb beq beq).
+Definition args_of_parse (r : ures URI) (l : list (bytes * bytes)) : bool :=
+  match r with
+  | UOk u => match Args.ParseBytes Args.emptyArgs (u_queryString u) with Some a => args_eqb (Args.All a) l | None => false end
+  | UErr _ => match l with [] => true | _ => false end
+  end.
+Definition snap_of (st : ustate) : snap :=
+  let u := us_uri st in
+  Snap (Scheme u) (Host u) (Path u) (u_pathOriginal u) (u_queryString u) (u_hash u) (u_username u) (u_password u) (FullURI_st st) (RequestURI_st st).
+Definition snap_eqb (a b : snap) : bool :=
+  match a, b with
+  | Snap a1 a2 a3 a4 a5 a6 a7 a8 a9 a10, Snap b1 b2 b3 b4 b5 b6 b7 b8 b9 b10 =>
+      beq a1 b1 && beq a2 b2 && beq a3 b3 && beq a4 b4 && beq a5 b5 && beq a6 b6 && beq a7 b7 && beq a8 b8 && beq a9 b9 && beq a10 b10
+  end.
+(* Some (all snapshots agreed, last state) | None = the model stopped at an operation it does not describe *)
+Fixpoint run_cmp (st : ustate) (ops : list uop) (snaps : list snap) : option (bool * ustate) :=
+  match ops, snaps with
+  | [], [] => Some (true, st)
+  | o :: ops', s :: snaps' =>
+      match ustep st o with
+      | None => None
+      | Some st' => match run_cmp st' ops' snaps' with
+                    | Some (b, stl) => Some (snap_eqb (snap_of st') s && b, stl)
+                    | None => if snap_eqb (snap_of st') s then None else Some (false, st')
+                    end
+      end
+  | _, _ => Some (false, st)
+  end.
+
 Definition corr_ok (c : c27case) : bool :=
   match c with
-  | CUri hostArg uri p user pw full req pf pr _ _ _ _ _ _ _ _ _ _ =>
+  | CUri hostArg uri p user pw full req stable reqRaw fullRaw pf pr args fullA pfa argsA pra argsR _ _ _ _ =>
       match parse hostArg uri with
       | UErr _ => negb (obs_ok p)
       | UOk u =>
+          let st := of_parse u in
           obs_eqb (obs_of (UOk u)) p && beq (u_username u) user && beq (u_password u) pw
-          && beq (FullURI u) full && beq (RequestURI u) req
+          && beq (FullURI u) full && beq (RequestURI u) req && beq (FullURI_st st) full && beq (RequestURI_st st) req && stable
+          && beq (RequestURI_st (mkUS u false Args.emptyArgs true)) reqRaw && beq (FullURI_st (mkUS u false Args.emptyArgs true)) fullRaw
           && obs_eqb (obs_of (parse [] full)) pf
           && obs_eqb (obs_of (parse (Host u) req)) pr
+          (* after QueryArgs(): the serialisation comes from the parsed arguments *)
+          && match QueryArgs st with
+             | None => false
+             | Some sa =>
+                 args_eqb (Args.All (us_args sa)) args && beq (FullURI_st sa) fullA
+                 && obs_eqb (obs_of (parse [] fullA)) pfa && args_of_parse (parse [] fullA) argsA
+                 && obs_eqb (obs_of (parse (Host u) (RequestURI_st sa))) pra && args_of_parse (parse (Host u) (RequestURI_st sa)) argsR
+             end
+      end
+  | CEdit hostArg uri ops snaps pf argsU argsF =>
+      match parse_st hostArg uri, snaps with
+      | None, [] => true
+      | None, _ :: _ => false
+      | Some _, [] => false
+      | Some st0, s0 :: rest =>
+          snap_eqb (snap_of st0) s0 &&
+          match run_cmp st0 ops rest with
+          | None => true                                    (* an inner Parse failed: the half-reset object is not described *)
+          | Some (okc, stl) =>
+              okc && obs_eqb (obs_of (parse [] (FullURI_st stl))) pf
+              && match QueryArgs stl with Some sa => args_eqb (Args.All (us_args sa)) argsU | None => false end
+              && args_of_parse (parse [] (FullURI_st stl)) argsF
+          end
       end
   | CPanic _ _ _ => false            (* the model never panics *)
   end.
@@ -57,13 +120,22 @@ Definition is_absolute (uri : bytes) : bool :=
   | Some n => negb (has_byte SLASH (firstn n uri))
   | None => false
   end.
-Definition args_eqb := list_eqb (pair_eqb beq beq).
 Definition lower_ascii (c : N) : N := if (65 <=? c) && (c <=? 90) then c + 32 else c.
 Definition is_http (s : bytes) : bool := beq s (s2b "http") || beq s (s2b "https").
 
+Definition no_ctl (s : bytes) : bool := negb (stringContainsCTLByte s).
+Definition keeps_wellformed (o : uop) : bool :=
+  match o with
+  | USetScheme v => isValidScheme v
+  | USetPath _ | USetUsername _ | USetPassword _ | UQueryArgs | UCopyTo => true
+  | USetQueryString v => no_ctl v && negb (has_byte HASH v)
+  | USetHash v => no_ctl v
+  | USetHost _ | URaw _ | UUpdate _ | UParse _ _ | UReset => false
+  end.
+
 Definition prop_ok (c : c27case) : bool :=
   match c with
-  | CUri hostArg uri p user pw full req pf pr args fullA pfa argsA pra argsR nu_ok nu_scheme nu_host nu_query =>
+  | CUri hostArg uri p user pw full req stable reqRaw fullRaw pf pr args fullA pfa argsA pra argsR nu_ok nu_scheme nu_host nu_query =>
       (* round trip: absolute URI, parsed successfully, host without a literal '%' *)
       (if obs_ok p && (match hostArg with [] => true | _ => false end) && is_absolute uri && negb (has_byte PCT (obs_host p))
        then (* FullURI() parses again to the same scheme, host, path, query string (QueryArgs unused), fragment *)
@@ -86,5 +158,16 @@ Definition prop_ok (c : c27case) : bool :=
        | None => negb nu_ok
        | Some (s, h, q) => nu_ok && beq s nu_scheme && beq h nu_host && beq q nu_query
        end)
+  | CEdit hostArg uri ops snaps pf argsU argsF =>
+      (* a parsed absolute URI edited only through setters that keep it a well-formed URI (scheme valid, no '#' or control byte in
+         the query, no control byte in the fragment; SetHost, Update, a raw Parse argument and DisablePathNormalizing are not judged):
+         FullURI() parses again to the same scheme, host, path, query arguments and fragment *)
+      match rev snaps with
+      | Snap sc ho pa _ _ ha _ _ _ _ :: _ :: _ | Snap sc ho pa _ _ ha _ _ _ _ :: _ =>
+          if (match hostArg with [] => true | _ => false end) && is_absolute uri && forallb keeps_wellformed ops && negb (has_byte PCT ho)
+          then obs_ok pf && beq (obs_scheme pf) sc && beq (obs_host pf) ho && beq (obs_path pf) pa && beq (obs_hash pf) ha && args_eqb argsF argsU
+          else true
+      | [] => true
+      end
   | CPanic _ _ stage => stage =? 0   (* a panic while serialising / re-parsing an accepted URI is a failed round trip *)
   end.
